@@ -122,6 +122,21 @@ def check_spaces(orc):
             enc = shared
         try:
             a = pspace.get_action(enc)
+            if block == 0 and count % 3 == 0:
+                # the same array object decoded again (an agent repeating
+                # its action): same answer, and the array is still the
+                # caller's
+                a_again = pspace.get_action(enc)
+                if desc_of(a_again) != desc_of(a) or \
+                        [int(v) for v in enc] != list(vec):
+                    orc.fail("C11.param", "decoding the same vector object "
+                             "twice gives two different actions / the "
+                             "caller's vector was modified",
+                             vector=list(vec),
+                             vector_after=[int(v) for v in enc],
+                             first=str(a), second=str(a_again))
+        except Violation:
+            raise
         except Exception as e:
             orc.fail("C11.param", "a vector of the parameterised space does "
                      "not decode", vector=list(vec),
